@@ -1,5 +1,203 @@
 package main
 
-func cmdMutants(args []string) int { return 0 }
+import (
+	"encoding/json"
+	"fmt"
+	"io"
+	"os"
+	"os/exec"
+	"path/filepath"
+	"sort"
+	"strings"
+	"sync"
+)
 
-func thoroughExtras(c *Ctx, p *Property, verifDir string) int { return 0 }
+// Thorough tier: sensitivity self-check. Every confirmed seeded change under /verif/seeded that the
+// reference run (seeded/MATRIX.json) caught under this property is applied to a scratch copy of the
+// CURRENT /repo tree and the quick check of the property is run on the copy (in a sub-process, so
+// that memory is returned). The check must report a violation there. A seed that applies and is not
+// reported means the rule set has lost its teeth: the check is declared broken (exit 2, no VIOLATION
+// line - the current tree itself is fine). Seeds whose patch no longer applies to the current tree
+// are skipped and counted. Nothing of the repository is executed: the sub-process is the same static
+// checker.
+
+type seedResult struct {
+	Seed    string `json:"seed"`
+	Applies bool   `json:"applies"`
+	Caught  bool   `json:"caught"`
+	Note    string `json:"note,omitempty"`
+}
+
+func copyTree(src, dst string) error {
+	return filepath.Walk(src, func(path string, info os.FileInfo, err error) error {
+		if err != nil {
+			return err
+		}
+		rel, _ := filepath.Rel(src, path)
+		if rel == ".git" || strings.HasPrefix(rel, ".git"+string(filepath.Separator)) {
+			if info.IsDir() {
+				return filepath.SkipDir
+			}
+			return nil
+		}
+		target := filepath.Join(dst, rel)
+		if info.IsDir() {
+			return os.MkdirAll(target, 0o755)
+		}
+		if !info.Mode().IsRegular() {
+			return nil
+		}
+		in, err := os.Open(path)
+		if err != nil {
+			return err
+		}
+		defer in.Close()
+		out, err := os.Create(target)
+		if err != nil {
+			return err
+		}
+		defer out.Close()
+		_, err = io.Copy(out, in)
+		return err
+	})
+}
+
+func runSeed(self, repo, verifDir, seedDir, prop string) seedResult {
+	sid := filepath.Base(seedDir)
+	res := seedResult{Seed: sid}
+	tmp, err := os.MkdirTemp("", "verifseed.")
+	if err != nil {
+		res.Note = err.Error()
+		return res
+	}
+	defer os.RemoveAll(tmp)
+	w := filepath.Join(tmp, "r")
+	if err := copyTree(repo, w); err != nil {
+		res.Note = "copy failed: " + err.Error()
+		return res
+	}
+	patch, _ := filepath.Abs(filepath.Join(seedDir, "patch.diff"))
+	ap := exec.Command("git", "apply", "--whitespace=nowarn", patch)
+	ap.Dir = w
+	if out, err := ap.CombinedOutput(); err != nil {
+		res.Note = "patch does not apply to the current tree: " + strings.TrimSpace(firstLine(string(out)))
+		return res
+	}
+	res.Applies = true
+	cmd := exec.Command(self, "check", prop, "--tier", "quick", "--repo", w, "--verif", verifDir, "--no-evidence")
+	out, err := cmd.CombinedOutput()
+	code := 0
+	if ee, ok := err.(*exec.ExitError); ok {
+		code = ee.ExitCode()
+	} else if err != nil {
+		res.Note = err.Error()
+		return res
+	}
+	res.Caught = code == 1 && strings.Contains(string(out), "VIOLATION property="+prop)
+	if !res.Caught {
+		res.Note = fmt.Sprintf("exit %d without a VIOLATION line", code)
+	} else {
+		for _, l := range strings.Split(string(out), "\n") {
+			if strings.HasPrefix(strings.TrimSpace(l), "rule=") {
+				res.Note = strings.TrimSpace(l)
+				if len(res.Note) > 160 {
+					res.Note = res.Note[:160]
+				}
+				break
+			}
+		}
+	}
+	return res
+}
+
+func firstLine(s string) string {
+	if i := strings.IndexByte(s, '\n'); i >= 0 {
+		return s[:i]
+	}
+	return s
+}
+
+func seedsFor(verifDir, prop string) []string {
+	var matrix map[string]struct {
+		Properties []string `json:"properties"`
+	}
+	b, err := os.ReadFile(filepath.Join(verifDir, "seeded", "MATRIX.json"))
+	if err != nil {
+		return nil
+	}
+	if json.Unmarshal(b, &matrix) != nil {
+		return nil
+	}
+	var out []string
+	for sid, m := range matrix {
+		for _, p := range m.Properties {
+			if p == prop {
+				if _, err := os.Stat(filepath.Join(verifDir, "seeded", sid, "patch.diff")); err == nil {
+					out = append(out, filepath.Join(verifDir, "seeded", sid))
+				}
+			}
+		}
+	}
+	sort.Strings(out)
+	return out
+}
+
+func thoroughExtras(c *Ctx, p *Property, verifDir string) (map[string]any, int) {
+	seeds := seedsFor(verifDir, p.ID)
+	self, err := os.Executable()
+	if err != nil {
+		return map[string]any{"error": err.Error()}, 2
+	}
+	results := make([]seedResult, len(seeds))
+	sem := make(chan struct{}, 4)
+	var wg sync.WaitGroup
+	for i, sd := range seeds {
+		wg.Add(1)
+		go func(i int, sd string) {
+			defer wg.Done()
+			sem <- struct{}{}
+			defer func() { <-sem }()
+			results[i] = runSeed(self, c.RepoDir, verifDir, sd, p.ID)
+		}(i, sd)
+	}
+	wg.Wait()
+	applied, caught, skipped := 0, 0, 0
+	code := 0
+	for _, r := range results {
+		switch {
+		case !r.Applies:
+			skipped++
+		case r.Caught:
+			applied++
+			caught++
+		default:
+			applied++
+			code = 2
+			fmt.Fprintf(os.Stderr, "INSENSITIVE property=%s seed=%s applied to the current tree is not reported (%s): the rule set no longer detects a change known to break the property\n", p.ID, r.Seed, r.Note)
+		}
+	}
+	fmt.Printf("sensitivity property=%s seeds=%d applied=%d reported=%d skipped=%d\n", p.ID, len(seeds), applied, caught, skipped)
+	return map[string]any{
+		"what":    "each confirmed seeded change (seeded/<id>/patch.diff) known to break this property is applied to a scratch copy of the current tree and the quick check must report it; static only",
+		"seeds":   len(seeds),
+		"applied": applied, "reported": caught, "skipped_patch_does_not_apply": skipped,
+		"results": results,
+	}, code
+}
+
+// cmdMutants runs the sensitivity self-check for every property (development aid).
+func cmdMutants(args []string) int {
+	verif := defaultVerifDir()
+	worst := 0
+	for i := range properties {
+		p := &properties[i]
+		if len(p.Rules) == 0 {
+			continue
+		}
+		_, code := thoroughExtras(&Ctx{RepoDir: "/repo"}, p, verif)
+		if code > worst {
+			worst = code
+		}
+	}
+	return worst
+}
